@@ -46,7 +46,20 @@ pub fn gen_layer(r: &mut Rng, layer_id: usize, depth: usize, special: bool) -> B
         };
         m.insert(n.to_string(), s);
     }
+    // now and then a lower layer holds one file larger than the buffers a copy-up moves it through
+    // (position-dependent content, so a lost, repeated or shifted chunk changes the bytes)
+    if depth == 0 && layer_id >= 1 && r.chance(1, 12) {
+        let len = *r.pick(&[65_537usize, (1 << 20) + 5, (4 << 20) + 9, (2 << 20) + (1 << 19) + 59]);
+        let seed = r.below(251) as usize;
+        if let Some(Spec::File { data, .. }) = m.values_mut().find(|s| matches!(s, Spec::File { .. })) {
+            *data = big_data(len, seed);
+        }
+    }
     m
+}
+
+pub fn big_data(len: usize, seed: usize) -> Vec<u8> {
+    (0..len).map(|i| (i.wrapping_mul(31) ^ (i >> 8) ^ (i >> 16).wrapping_mul(7) ^ seed) as u8).collect()
 }
 
 pub fn materialise(root: &Path, spec: &BTreeMap<String, Spec>) {
@@ -158,7 +171,16 @@ pub fn walk(conn: &mut Conn<Arc<OverlayFs>>) -> Result<BTreeMap<String, WNode>, 
             let content = match kind {
                 'f' => {
                     let fh = conn.open(e.nodeid, libc::O_RDONLY as u32, false).map(|x| x.0).map_err(|er| format!("OPEN {} failed: {}", p, er))?;
-                    let d = conn.read(e.nodeid, fh, 0, 65536, libc::O_RDONLY as u32).map_err(|er| format!("READ {} failed: {}", p, er))?;
+                    // read to the end in 64 KiB requests (files larger than one request exist: `big_data`)
+                    let mut d = Vec::new();
+                    loop {
+                        let part = conn.read(e.nodeid, fh, d.len() as u64, 65536, libc::O_RDONLY as u32).map_err(|er| format!("READ {} failed: {}", p, er))?;
+                        let n = part.len();
+                        d.extend_from_slice(&part);
+                        if n < 65536 || d.len() > (64 << 20) {
+                            break;
+                        }
+                    }
                     let _ = conn.release(e.nodeid, fh, 0, false);
                     if d.len() as u64 != e.attr.size {
                         return Err(format!("{}: size attribute {} but {} bytes readable", p, e.attr.size, d.len()));
